@@ -14,7 +14,7 @@ from harness.models import jsonmodel2
 INTS = [0, -1, 1, 2 ** 31, -(2 ** 63), 2 ** 63, 2 ** 100, 10 ** 30]
 FLOATS = [0.0, -0.0, 1e308, -1e308, 5e-324, 2.0 ** -1074, 0.1, 1.0, float("inf"), float("-inf"), 3.141592653589793, 1e-7, 123456789.123456789]
 STRS = ["", "a", "é", "\u0000", "\U0001F600", "日本語", "__json_type__", "json.dumps", "a.b", "{\"x\": 1}", "\\", "\"", "\n\t", " ", "퟿", " "]
-CLS = {"A": A, "B": B, "C": C, "A2": jsonmodel2.A}
+CLS = {"A": A, "B": B, "C": C, "A2": jsonmodel2.A, "It": jsonmodel.It}
 
 
 def concretise(shape, rnd):
@@ -98,6 +98,7 @@ TAGS = {
     "attr_module": ["os.path", "harness.models", "json.decoder"],
     "attr_typevar": ["typing_extensions.T", "typing.AnyStr", "typing.List"],
     "attr_plain_class": ["harness.models.jsonmodel.Plain", "decimal.Decimal", "builtins.int"],
+    "attr_subclass_of_registered": ["harness.models.jsonmodel.MyUUID", "harness.models.jsonmodel.Stamp"],
     "attr_serializable_class": ["harness.models.jsonmodel.A", "harness.models.jsonmodel.C"],
     "attr_registered_class": ["uuid.UUID", "datetime.date"],
 }
